@@ -1246,7 +1246,15 @@ def c06_27(ctx):
 
 
 
+def c06_28(ctx):
+    """the leaf script of a script-path spend is hashed as the bytes the witness holds (rule shared with C12.22)"""
+    from rules.C12 import c12_22
+    return c12_22(ctx)
+
+
+
 OBLIGATIONS = [
+    ("C06.28", "CELLS leaf bytes (shared C12.22)", c06_28),
     ("C06.27", "LAYOUT digests vs spec (shared C05.2-4)", c06_27),
     ("C06.26", "LAYOUT der (shared C01.7)", c06_26),
     ("C06.25", "CELLS tapscript witness", c06_25),
